@@ -85,8 +85,20 @@ def check_message(ctx, t, a, ti, tf, hexcheck=True):
                   lambda: hx[:120])
     # decode three ways
     try:
-        d1 = Message.from_bytes(b, time=ti)
-        d2 = Message.from_bytes(bn, time=tf)
+        # (the arguments by position, by keyword, or both by their documented names - varies with the message)
+        style = (ref[0] + len(ref) + (ref[1] if len(ref) > 1 else 0)) % 4
+        if style == 0:
+            d1 = Message.from_bytes(b, time=ti)
+            d2 = Message.from_bytes(bn, time=tf)
+        elif style == 1:
+            d1 = Message.from_bytes(b, ti)
+            d2 = Message.from_bytes(data=bn, time=tf)
+        elif style == 2:
+            d1 = Message.from_bytes(data=b, time=ti)
+            d2 = Message.from_bytes(bn, tf)
+        else:
+            d1 = Message.from_bytes(time=ti, data=b)
+            d2 = Message.from_bytes(bn, time=tf)
         ctx.check('from_bytes==m', d1 == m and _eq_typed(d1, t, a, ti), key, case,
                   lambda: repr(d1)[:200])
         ctx.check('time passthrough', _eq_typed(d2, t, a, tf) and d2 == m.copy(time=tf),
@@ -95,7 +107,7 @@ def check_message(ctx, t, a, ti, tf, hexcheck=True):
         ctx.check('from_bytes default time', _eq_typed(d0, t, a, 0), key, case,
                   lambda: repr(d0)[:200])
         if hexcheck:
-            d3 = Message.from_hex(hx, time=ti)
+            d3 = Message.from_hex(hx, time=ti) if style < 2 else Message.from_hex(text=hx, time=ti) if style == 2 else Message.from_hex(hx, ti, None)
             ctx.check('from_hex==m', d3 == m and _eq_typed(d3, t, a, ti), key, case,
                       lambda: repr(d3)[:200])
     except Exception as exc:
